@@ -215,7 +215,7 @@ func init() {
 			func(s *e1.Stats) bool {
 				return marks(s, "comp-change:2-subscribers-1-other", "comp-change:no-subscriber")
 			})
-		partStepThrough(c, a, []string{"compupd-vs-unsub", "leave"})
+		partStepThrough(c, a, []string{"compupd-vs-unsub", "sub-vs-sub", "leave"})
 		return a.finish(c)
 	}
 	registry["C14"] = func(c *check.Ctx) int {
